@@ -63,6 +63,8 @@ def scripted_input(answers, log):
         if a == "<ERR>":
             # the answer cannot be read: bytes that are no valid UTF-8 typed on a UTF-8 console
             raise UnicodeDecodeError("utf-8", b"\xe4\n", 0, 1, "invalid continuation byte")
+        if a == "<NOSTDIN>":
+            raise RuntimeError("input(): lost sys.stdin")  # the process was started without a standard input
         if a == "<INT>":
             raise KeyboardInterrupt()  # Ctrl+C while the question is pending: no answer either
         return a
@@ -126,8 +128,9 @@ def run_cli(tool, argv, cwd=None, answers=None, keep_figures=False):
     return res
 
 
-def run_subprocess(tool, argv, cwd, home, stdin_text="", repo=None, timeout=120):
-    """run the real command line entry point in a fresh interpreter"""
+def run_subprocess(tool, argv, cwd, home, stdin_text="", repo=None, timeout=120, closed_stdout=False):
+    """run the real command line entry point in a fresh interpreter (closed_stdout: the process
+    starts without a standard output, as with `cmd >&-`, cron jobs or daemons: sys.stdout is None)"""
     env = dict(os.environ)
     env["HOME"] = home
     env["MPLBACKEND"] = "Agg"
@@ -136,6 +139,11 @@ def run_subprocess(tool, argv, cwd, home, stdin_text="", repo=None, timeout=120)
     env["PYTHONPATH"] = repo
     code = "import sys; from evo import entry_points, main_config; sys.argv=['evo_%s']+sys.argv[1:]; " % tool
     code += "main_config.main()" if tool == "config" else "entry_points.%s()" % tool
+    if closed_stdout:
+        p = subprocess.run([sys.executable, "-c", code] + list(argv), cwd=cwd, env=env, input=stdin_text, text=True,
+                           stderr=subprocess.PIPE, timeout=timeout, preexec_fn=lambda: os.close(1))
+        p.stdout = ""
+        return p
     p = subprocess.run([sys.executable, "-c", code] + list(argv), cwd=cwd, env=env,
                        input=stdin_text, capture_output=True, text=True, timeout=timeout)
     return p
